@@ -149,6 +149,10 @@ impl CountVectorizerParams {
             }
             Tokenizer::Regex(regex_str) => {
                 self.0.split_regex_expr = regex_str.to_string();
+                // the last tokenizer set wins: a function set earlier would otherwise still be
+                // preferred by fit/transform, while a deserialized copy (function not
+                // serializable, guard off) would silently tokenize with the regex
+                self.0.tokenizer_function = None;
                 self.0.tokenizer_deserialization_guard = false;
             }
         }
